@@ -105,6 +105,8 @@ static void r_ptr(const void *p) { snprintf(rbuf, sizeof rbuf, "%s", p ? "ptr" :
 static void r_dbl(double v) { snprintf(rbuf, sizeof rbuf, "%.9g", v); op_failed = (v == HUGE_VAL); }
 static void r_cpx(double complex v) { snprintf(rbuf, sizeof rbuf, "%.9g,%.9g", creal(v), cimag(v)); op_failed = (creal(v) == HUGE_VAL); }
 static void r_skip(void) { snprintf(rbuf, sizeof rbuf, "SKIP"); op_failed = false; }
+/* self-aliasing ops: the getter whose result was to be handed to the mutator returned NULL: the op fails with the getter's errno */
+#define GETTER_FAILED() do { r_int(-1, true); snprintf(vbuf, sizeof vbuf, "src=NULL"); return; } while (0)
 static void v_str(const char *s)
 {
     size_t j = 0;
@@ -252,6 +254,7 @@ static mat_t mat_identity(int rows, int cols, int freqs)
 
 /* ------------------------------------------------------------------ the ops */
 static bool slot_ok(int i, int n) { return i >= 0 && i < n; }
+static int d_ports(const vnadata_t *v) { int r = vnadata_get_rows(v), c = vnadata_get_columns(v); return r > c ? r : c; }
 
 static void free_text(int t) { free(T[t].buf); T[t].buf = NULL; T[t].len = 0; }
 
@@ -323,6 +326,78 @@ static void do_op(const char *op)
 	    r_int(rc, rc == -1);
 	}
 	else if (!strcmp(op, "pdig")) { uint64_t h = prop_digest_rec(P[p], 1469598103934665603ULL, 0); r_int(0, false); snprintf(vbuf, sizeof vbuf, "%016llx", (unsigned long long)h); }
+	/* ---- self-aliasing family ("pa..."): the result of a getter of tree q is handed to a mutator of tree p (q == p: same object) */
+	else if (!strcmp(op, "paset")) {
+	    /* paset p q src dst suffix: vnaproperty_set(&P[p], "<dst>=%s<suffix>", vnaproperty_get(P[q], src)) */
+	    int q = geti(); char *src = gets_(); char *dst = gets_(); char *suf = gets_(); const char *s; int rc;
+	    if (!slot_ok(q, NP) || !src || !dst) { r_skip(); return; }
+	    LIB(s = vnaproperty_get(P[q], "%s", src));
+	    if (s == NULL) { GETTER_FAILED(); }
+	    LIB(rc = vnaproperty_set(&P[p], "%s=%s%s", dst, s, suf ? suf : "")); r_int(rc, rc == -1);
+	}
+	else if (!strcmp(op, "pacopy")) {
+	    /* pacopy p q src: vnaproperty_copy(&P[p], vnaproperty_get_subtree(P[q], src)); q == p: the source lies inside the destination */
+	    int q = geti(); char *src = gets_(); vnaproperty_t *s; int rc;
+	    if (!slot_ok(q, NP) || !src) { r_skip(); return; }
+	    errno = 0;
+	    LIB(s = vnaproperty_get_subtree(P[q], "%s", src));
+	    if (s == NULL && errno != 0) { GETTER_FAILED(); }
+	    LIB(rc = vnaproperty_copy(&P[p], s)); r_int(rc, rc == -1);
+	}
+	else if (!strcmp(op, "pacopysub")) {
+	    /* pacopysub p dst q src: vnaproperty_copy(vnaproperty_set_subtree(&P[p], dst), vnaproperty_get_subtree(P[q], src)) */
+	    char *dst = gets_(); int q = geti(); char *src = gets_(); vnaproperty_t **a, *s; int rc;
+	    if (!slot_ok(q, NP) || !src || !dst) { r_skip(); return; }
+	    LIB(a = vnaproperty_set_subtree(&P[p], "%s", dst));
+	    if (a == NULL) { GETTER_FAILED(); }
+	    errno = 0;
+	    LIB(s = vnaproperty_get_subtree(P[q], "%s", src));
+	    if (s == NULL && errno != 0) { GETTER_FAILED(); }
+	    LIB(rc = vnaproperty_copy(a, s)); r_int(rc, rc == -1);
+	}
+	else if (!strcmp(op, "paimports")) {
+	    /* paimports p q src usecb: vnaproperty_import_yaml_from_string(&P[p], vnaproperty_get(P[q], src), ...) */
+	    int q = geti(); char *src = gets_(); int usecb = geti(); const char *s; int rc;
+	    if (!slot_ok(q, NP) || !src) { r_skip(); return; }
+	    LIB(s = vnaproperty_get(P[q], "%s", src));
+	    if (s == NULL) { GETTER_FAILED(); }
+	    LIB(rc = vnaproperty_import_yaml_from_string(&P[p], s, usecb ? errfn : NULL, NULL)); r_int(rc, rc == -1);
+	}
+	else if (!strcmp(op, "padelvia") || !strcmp(op, "paimportvia")) {
+	    /* padelvia p dst: vnaproperty_delete(vnaproperty_set_subtree(&P[p], dst), ".");  paimportvia p dst text: import at that anchor */
+	    char *dst = gets_(); char *text = gets_(); vnaproperty_t **a; int rc;
+	    if (!dst || (op[2] == 'i' && !text)) { r_skip(); return; }
+	    LIB(a = vnaproperty_set_subtree(&P[p], "%s", dst));
+	    if (a == NULL) { GETTER_FAILED(); }
+	    if (op[2] == 'd') LIB(rc = vnaproperty_delete(a, "."));
+	    else LIB(rc = vnaproperty_import_yaml_from_string(a, text, errfn, NULL));
+	    r_int(rc, rc == -1);
+	}
+	else if (!strcmp(op, "pakeys")) {
+	    /* pakeys p expr mode: iterate over vnaproperty_keys(P[p], expr) while changing the same map through the key pointers:
+	     * 0 set every value to its own key, 1 delete every key in order, 2 add a new key "<key>_<i>" per key (the map grows and
+	     * is rehashed while the key vector is held), 3 delete in reverse order, 4 replace the map by a scalar at the first key and go on */
+	    char *e = gets_(); int mode = geti(); const char **k; int nfail = 0, n = 0;
+	    if (!e) { r_skip(); return; }
+	    LIB(k = vnaproperty_keys(P[p], "%s", e));
+	    if (k == NULL) { GETTER_FAILED(); }
+	    while (k[n] != NULL) ++n;
+	    const char *pre = strcmp(e, ".") == 0 ? "" : e, *dot = strcmp(e, ".") == 0 ? "" : ".";
+	    for (int j = 0; j < n && j < 64; ++j) {
+		int i = (mode == 3) ? n - 1 - j : j; char *q; int rc = 0;
+		if (mode == 4 && j > 0) break;		/* (every other key pointer is dangling now: not used any more) */
+		LIB(q = vnaproperty_quote_key(k[i]));
+		if (q == NULL) { ++nfail; continue; }
+		if (mode == 0) LIB(rc = vnaproperty_set(&P[p], "%s%s%s=%s", pre, dot, q, k[i]));
+		else if (mode == 1 || mode == 3) LIB(rc = vnaproperty_delete(&P[p], "%s%s%s", pre, dot, q));
+		else if (mode == 2) LIB(rc = vnaproperty_set(&P[p], "%s%s%s_%d=%s", pre, dot, q, i, k[i]));
+		else LIB(rc = vnaproperty_set(&P[p], "%s=%s", e, k[i]));
+		if (rc == -1) ++nfail;
+		free(q);
+	    }
+	    free((void *)k);
+	    r_int(nfail, nfail != 0); snprintf(vbuf, sizeof vbuf, "%d", n);
+	}
 	else r_skip();
 	return;
     }
@@ -445,6 +520,71 @@ static void do_op(const char *op)
 	    fclose(fp);
 	    r_int(rc, rc == -1);
 	}
+	/* ---- self-aliasing family ("da..."): a pointer returned by a getter of object o is handed to a mutator of object d
+	 * (o == d: same object).  The call is made only when it is legal for the caller: the source holds at least as many
+	 * elements as the mutator reads (otherwise SKIP). */
+	else if (!strncmp(op, "da", 2) && strcmp(op, "dalloc") && strcmp(op, "dallocinit") && strcmp(op, "daddf")) {
+	    if (!strcmp(op, "dasavefmt") || !strcmp(op, "daloadfmt") || !strcmp(op, "dacksavefmt") || !strcmp(op, "dasetfmt")) {
+		/* dasetfmt d o | dasavefmt d o t | daloadfmt d o t | dacksavefmt d o: the format string of o as format / file name of d */
+		int o = geti(); int t = geti(); const char *s; int rc;
+		if (!slot_ok(o, ND) || D[o] == NULL) { r_skip(); return; }
+		LIB(s = vnadata_get_format(D[o]));
+		if (s == NULL) { GETTER_FAILED(); }
+		if (!strcmp(op, "dasetfmt")) { LIB(rc = vnadata_set_format(v, s)); }
+		else if (!strcmp(op, "dacksavefmt")) { LIB(rc = vnadata_cksave(v, s)); }
+		else if (!strcmp(op, "dasavefmt")) {
+		    if (!slot_ok(t, NT)) { r_skip(); return; }
+		    free_text(t);
+		    FILE *fp = open_memstream(&T[t].buf, &T[t].len);
+		    LIB(rc = vnadata_fsave(v, fp, s));
+		    fclose(fp);
+		    if (rc != 0) free_text(t);
+		} else {
+		    if (!slot_ok(t, NT) || T[t].buf == NULL || T[t].len == 0) { r_skip(); return; }
+		    FILE *fp = fmemopen(T[t].buf, T[t].len, "r");
+		    LIB(rc = vnadata_fload(v, fp, s));
+		    fclose(fp);
+		}
+		r_int(rc, rc == -1);
+	    }
+	    else if (!strcmp(op, "dasetfv")) {
+		/* dasetfv d o: vnadata_set_frequency_vector(D[d], vnadata_get_frequency_vector(D[o])) */
+		int o = geti(); const double *fv; int rc;
+		if (!slot_ok(o, ND) || D[o] == NULL || vnadata_get_frequencies(D[o]) < nf) { r_skip(); return; }
+		LIB(fv = vnadata_get_frequency_vector(D[o]));
+		if (fv == NULL) { GETTER_FAILED(); }
+		LIB(rc = vnadata_set_frequency_vector(v, fv)); r_int(rc, rc == -1);
+	    }
+	    else if (!strcmp(op, "dasetz0v") || !strcmp(op, "dasetfz0v")) {
+		/* dasetz0v d o src j: vnadata_set_z0_vector(D[d], z);  dasetfz0v d i o src j: vnadata_set_fz0_vector(D[d], i, z)
+		 * z = src 0: vnadata_get_z0_vector(D[o]), src 1: vnadata_get_fz0_vector(D[o], j) */
+		int i = op[5] == 'f' ? geti() : 0; int o = geti(), src = geti(), j = geti(); const double complex *z; int rc;
+		if (!slot_ok(o, ND) || D[o] == NULL || d_ports(D[o]) < ports) { r_skip(); return; }
+		if (src == 0) LIB(z = vnadata_get_z0_vector(D[o])); else LIB(z = vnadata_get_fz0_vector(D[o], j));
+		if (z == NULL) { GETTER_FAILED(); }
+		if (op[5] == 'f') LIB(rc = vnadata_set_fz0_vector(v, i, z)); else LIB(rc = vnadata_set_z0_vector(v, z));
+		r_int(rc, rc == -1);
+	    }
+	    else if (!strcmp(op, "dasetm")) {
+		/* dasetm d i o j: vnadata_set_matrix(D[d], i, vnadata_get_matrix(D[o], j)) */
+		int i = geti(), o = geti(), j = geti(); const double complex *m; int rc;
+		if (!slot_ok(o, ND) || D[o] == NULL || vnadata_get_rows(D[o]) * vnadata_get_columns(D[o]) < rows * cols) { r_skip(); return; }
+		LIB(m = vnadata_get_matrix(D[o], j));
+		if (m == NULL) { GETTER_FAILED(); }
+		LIB(rc = vnadata_set_matrix(v, i, m)); r_int(rc, rc == -1);
+	    }
+	    else if (!strcmp(op, "dasetv") || !strcmp(op, "dagetv")) {
+		/* dasetv d r c o j: vnadata_set_from_vector(D[d], r, c, vnadata_get_matrix(D[o], j));  dagetv: vnadata_get_to_vector into
+		 * that matrix (the matrix of o must have at least as many cells as d has frequencies) */
+		int r = geti(), c = geti(), o = geti(), j = geti(); double complex *m; int rc;
+		if (!slot_ok(o, ND) || D[o] == NULL || vnadata_get_rows(D[o]) * vnadata_get_columns(D[o]) < nf) { r_skip(); return; }
+		LIB(m = vnadata_get_matrix(D[o], j));
+		if (m == NULL) { GETTER_FAILED(); }
+		if (op[2] == 's') LIB(rc = vnadata_set_from_vector(v, r, c, m)); else LIB(rc = vnadata_get_to_vector(v, r, c, m));
+		r_int(rc, rc == -1);
+	    }
+	    else r_skip();
+	}
 	else if (!strcmp(op, "ddig")) { uint64_t h = data_digest(v); r_int(0, false); snprintf(vbuf, sizeof vbuf, "%d,%dx%dx%d,%016llx", (int)vnadata_get_type(v), rows, cols, nf, (unsigned long long)h); }
 	else r_skip();
 	return;
@@ -462,6 +602,14 @@ static void do_op(const char *op)
 	    int id = geti(); int usecb = geti(); vnacal_t *v;
 	    if (C[c] != NULL) { r_skip(); return; }
 	    LIB(v = vnacal_load(path_of(id), usecb ? errfn : NULL, NULL)); C[c] = v; r_ptr(v); return;
+	}
+	if (!strcmp(op, "caload")) {
+	    /* caload c o usecb: C[c] = vnacal_load(vnacal_get_filename(C[o]), ...) */
+	    int o = geti(); int usecb = geti(); vnacal_t *v; const char *name;
+	    if (C[c] != NULL || !slot_ok(o, NC) || C[o] == NULL) { r_skip(); return; }
+	    LIB(name = vnacal_get_filename(C[o]));
+	    if (name == NULL) { GETTER_FAILED(); }
+	    LIB(v = vnacal_load(name, usecb ? errfn : NULL, NULL)); C[c] = v; r_ptr(v); return;
 	}
 	vnacal_t *v = C[c];
 	if (v == NULL) { r_skip(); return; }
@@ -544,6 +692,133 @@ static void do_op(const char *op)
 	    mat_free(m); mat_free(a); free(fv); r_int(rc, rc == -1);
 	    if (rc == 0) snprintf(vbuf, sizeof vbuf, "%016llx", (unsigned long long)data_digest(out));
 	}
+	/* ---- self-aliasing family ("ca..."): a pointer returned by a getter of vnacal_t o (o == c: same object) is handed to a
+	 * mutator of vnacal_t c */
+	else if (!strcmp(op, "casave")) {
+	    /* casave c o: vnacal_save(C[c], vnacal_get_filename(C[o])) */
+	    int o = geti(); const char *name; int rc;
+	    if (!slot_ok(o, NC) || C[o] == NULL) { r_skip(); return; }
+	    LIB(name = vnacal_get_filename(C[o]));
+	    if (name == NULL) { GETTER_FAILED(); }
+	    LIB(rc = vnacal_save(v, name)); r_int(rc, rc == -1);
+	    { const char *now; LIB(now = vnacal_get_filename(v)); v_str(now ? strrchr(now, '/') ? strrchr(now, '/') + 1 : now : NULL); }
+	}
+	else if (!strcmp(op, "capset")) {
+	    /* capset c ci o cj src dst suffix: vnacal_property_set(C[c], ci, "<dst>=%s<suffix>", vnacal_property_get(C[o], cj, src)) */
+	    int ci = geti(), o = geti(), cj = geti(); char *src = gets_(), *dst = gets_(), *suf = gets_(); const char *s; int rc;
+	    if (!slot_ok(o, NC) || C[o] == NULL || !src || !dst) { r_skip(); return; }
+	    LIB(s = vnacal_property_get(C[o], cj, "%s", src));
+	    if (s == NULL) { GETTER_FAILED(); }
+	    LIB(rc = vnacal_property_set(v, ci, "%s=%s%s", dst, s, suf ? suf : "")); r_int(rc, rc == -1);
+	}
+	else if (!strcmp(op, "capsetvia")) {
+	    /* capsetvia c ci dst val: vnaproperty_set(vnacal_property_set_subtree(C[c], ci, dst), ".=%s", val) */
+	    int ci = geti(); char *dst = gets_(), *val = gets_(); vnaproperty_t **a; int rc;
+	    if (!dst || !val) { r_skip(); return; }
+	    LIB(a = vnacal_property_set_subtree(v, ci, "%s", dst));
+	    if (a == NULL) { GETTER_FAILED(); }
+	    LIB(rc = vnaproperty_set(a, ".=%s", val)); r_int(rc, rc == -1);
+	}
+	else if (!strcmp(op, "capcopy")) {
+	    /* capcopy c ci dst o cj src: vnaproperty_copy(vnacal_property_set_subtree(C[c], ci, dst), vnacal_property_get_subtree(C[o], cj, src)) */
+	    int ci = geti(); char *dst = gets_(); int o = geti(), cj = geti(); char *src = gets_(); vnaproperty_t **a, *s; int rc;
+	    if (!slot_ok(o, NC) || C[o] == NULL || !src || !dst) { r_skip(); return; }
+	    LIB(a = vnacal_property_set_subtree(v, ci, "%s", dst));
+	    if (a == NULL) { GETTER_FAILED(); }
+	    errno = 0;
+	    LIB(s = vnacal_property_get_subtree(C[o], cj, "%s", src));
+	    if (s == NULL && errno != 0) { GETTER_FAILED(); }
+	    LIB(rc = vnaproperty_copy(a, s)); r_int(rc, rc == -1);
+	}
+	else if (!strcmp(op, "capexport") || !strcmp(op, "capimport")) {
+	    /* capexport c ci src p: vnaproperty_copy(&P[p], vnacal_property_get_subtree(C[c], ci, src))
+	     * capimport c ci dst p: vnaproperty_copy(vnacal_property_set_subtree(C[c], ci, dst), P[p]) */
+	    int ci = geti(); char *e = gets_(); int p = geti(); int rc;
+	    if (!slot_ok(p, NP) || !e) { r_skip(); return; }
+	    if (op[3] == 'e') {
+		vnaproperty_t *s;
+		errno = 0;
+		LIB(s = vnacal_property_get_subtree(v, ci, "%s", e));
+		if (s == NULL && errno != 0) { GETTER_FAILED(); }
+		LIB(rc = vnaproperty_copy(&P[p], s));
+	    } else {
+		vnaproperty_t **a;
+		LIB(a = vnacal_property_set_subtree(v, ci, "%s", e));
+		if (a == NULL) { GETTER_FAILED(); }
+		LIB(rc = vnaproperty_copy(a, P[p]));
+	    }
+	    r_int(rc, rc == -1);
+	}
+	else if (!strcmp(op, "capkeys")) {
+	    /* capkeys c ci expr mode: as pakeys, through vnacal_property_keys / _set / _delete (modes 0 .. 3) */
+	    int ci = geti(); char *e = gets_(); int mode = geti(); const char **k; int nfail = 0, n = 0;
+	    if (!e) { r_skip(); return; }
+	    LIB(k = vnacal_property_keys(v, ci, "%s", e));
+	    if (k == NULL) { GETTER_FAILED(); }
+	    while (k[n] != NULL) ++n;
+	    const char *pre = strcmp(e, ".") == 0 ? "" : e, *dot = strcmp(e, ".") == 0 ? "" : ".";
+	    for (int j = 0; j < n && j < 64; ++j) {
+		int i = (mode == 3) ? n - 1 - j : j; char *q; int rc = 0;
+		LIB(q = vnaproperty_quote_key(k[i]));
+		if (q == NULL) { ++nfail; continue; }
+		if (mode == 0) LIB(rc = vnacal_property_set(v, ci, "%s%s%s=%s", pre, dot, q, k[i]));
+		else if (mode == 1 || mode == 3) LIB(rc = vnacal_property_delete(v, ci, "%s%s%s", pre, dot, q));
+		else LIB(rc = vnacal_property_set(v, ci, "%s%s%s_%d=%s", pre, dot, q, i, k[i]));
+		if (rc == -1) ++nfail;
+		free(q);
+	    }
+	    free((void *)k);
+	    r_int(nfail, nfail != 0); snprintf(vbuf, sizeof vbuf, "%d", n);
+	}
+	else if (!strcmp(op, "caaddcal") || !strcmp(op, "cafind")) {
+	    /* caaddcal c ci o n: vnacal_add_calibration(C[c], vnacal_get_name(C[o], ci), N[n])   (o == c: a calibration is replaced
+	     * under its own name pointer);  cafind c ci o: vnacal_find_calibration(C[c], vnacal_get_name(C[o], ci)) */
+	    int ci = geti(), o = geti(), n = geti(); const char *name; int rc;
+	    if (!slot_ok(o, NC) || C[o] == NULL) { r_skip(); return; }
+	    vnacal_new_t *vnp = slot_ok(n, NN) ? N[n].p : NULL;
+	    if (op[2] == 'a' && vnp == NULL) { r_skip(); return; }
+	    LIB(name = vnacal_get_name(C[o], ci));
+	    if (name == NULL) { GETTER_FAILED(); }
+	    if (op[2] == 'a') LIB(rc = vnacal_add_calibration(v, name, vnp)); else LIB(rc = vnacal_find_calibration(v, name));
+	    r_int(rc, rc == -1);
+	}
+	else if (!strcmp(op, "cavector") || !strcmp(op, "cacorr")) {
+	    /* cavector c o ci: vnacal_make_vector_parameter(C[c], vnacal_get_frequency_vector(C[o], ci), vnacal_get_frequencies(C[o], ci), gamma)
+	     * cacorr c o ci other: vnacal_make_correlated_parameter(C[c], other, <that vector>, <its length>, sigma) */
+	    int o = geti(), ci = geti(), other = geti(); const double *fv; int nf, rc;
+	    if (!slot_ok(o, NC) || C[o] == NULL) { r_skip(); return; }
+	    LIB(fv = vnacal_get_frequency_vector(C[o], ci));
+	    if (fv == NULL) { GETTER_FAILED(); }
+	    LIB(nf = vnacal_get_frequencies(C[o], ci));
+	    int na = nf > 0 ? nf : 0;
+	    double complex *gv = calloc((size_t)na + 1, sizeof(double complex)); double *sv = calloc((size_t)na + 1, sizeof(double));
+	    for (int i = 0; i < na; ++i) { gv[i] = 0.1 * i - 0.2 * I; sv[i] = 0.01 * (i + 1); }
+	    if (op[2] == 'v') LIB(rc = vnacal_make_vector_parameter(v, fv, nf, gv)); else LIB(rc = vnacal_make_correlated_parameter(v, other, fv, nf, sv));
+	    free(gv); free(sv); r_int(rc, rc == -1);
+	}
+	else if (!strcmp(op, "caapply")) {
+	    /* caapply c ci src d rows cols mode o cj: apply with a frequency vector that belongs to a library object:
+	     * src 0: vnadata_get_frequency_vector(D[d]) / vnadata_get_frequencies(D[d]) of the OUTPUT object itself,
+	     * src 1: vnacal_get_frequency_vector(C[o], cj) / vnacal_get_frequencies(C[o], cj) */
+	    int ci = geti(), src = geti(), d = geti(), rows = geti(), cols = geti(), mode = geti(), o = geti(), cj = geti(); int rc, nf;
+	    const double *fv;
+	    vnadata_t *out = slot_ok(d, ND) ? D[d] : NULL;
+	    if (out == NULL) { r_skip(); return; }
+	    if (src == 0) { LIB(fv = vnadata_get_frequency_vector(out)); nf = vnadata_get_frequencies(out); }
+	    else {
+		if (!slot_ok(o, NC) || C[o] == NULL) { r_skip(); return; }
+		LIB(fv = vnacal_get_frequency_vector(C[o], cj));
+		if (fv != NULL) LIB(nf = vnacal_get_frequencies(C[o], cj));
+	    }
+	    if (fv == NULL) { GETTER_FAILED(); }
+	    int na = nf > 0 ? nf : 0;
+	    mat_t m = mat_alloc(rows, cols, na);
+	    for (int i = 0; i < m.cells; ++i) for (int f = 0; f < na; ++f) m.v[i][f] = 0.1 * (i + 1) + 0.01 * f * I;
+	    mat_t a = mat_identity(cols, cols, na);
+	    if (mode == 0) LIB(rc = vnacal_apply_m(v, ci, fv, nf, m.v, rows, cols, out));
+	    else LIB(rc = vnacal_apply(v, ci, fv, nf, a.v, cols, cols, m.v, rows, cols, out));
+	    mat_free(m); mat_free(a); r_int(rc, rc == -1);
+	}
 	else r_skip();
 	return;
     }
@@ -585,6 +860,29 @@ static void do_op(const char *op)
 	    free(fv); free(s1); free(s2); r_int(rc, rc == -1);
 	}
 	else if (!strcmp(op, "nsolve")) { int rc; LIB(rc = vnacal_new_solve(v)); r_int(rc, rc == -1); }
+	/* ---- self-aliasing family ("na..."): the frequency vector of calibration ci of vnacal_t c (the owner of this
+	 * vnacal_new_t or another one) handed to the setters of the vnacal_new_t */
+	else if (!strcmp(op, "nasetfv") || !strcmp(op, "namerr")) {
+	    /* nasetfv n c ci: vnacal_new_set_frequency_vector(N[n], vnacal_get_frequency_vector(C[c], ci))   (legal when the
+	     * calibration has at least as many frequencies as the vnacal_new_t, else SKIP)
+	     * namerr n c ci: vnacal_new_set_m_error(N[n], <that vector>, <its length>, sigma_nf, sigma_tr) */
+	    int c = geti(), ci = geti(); const double *fv; int nf, rc;
+	    if (!slot_ok(c, NC) || C[c] == NULL) { r_skip(); return; }
+	    LIB(fv = vnacal_get_frequency_vector(C[c], ci));
+	    if (fv == NULL) { GETTER_FAILED(); }
+	    LIB(nf = vnacal_get_frequencies(C[c], ci));
+	    if (op[2] == 's') {
+		if (nf < F) { r_skip(); return; }
+		LIB(rc = vnacal_new_set_frequency_vector(v, fv));
+	    } else {
+		int na = nf > 0 ? nf : 0;
+		double *s1 = calloc((size_t)na + 1, sizeof(double)), *s2 = calloc((size_t)na + 1, sizeof(double));
+		for (int i = 0; i < na; ++i) { s1[i] = 1e-4; s2[i] = 1e-3; }
+		LIB(rc = vnacal_new_set_m_error(v, fv, nf, s1, s2));
+		free(s1); free(s2);
+	    }
+	    r_int(rc, rc == -1);
+	}
 	else if (!strcmp(op, "nsr") || !strcmp(op, "ndr") || !strcmp(op, "nthru") || !strcmp(op, "nline") || !strcmp(op, "nmm")) {
 	    /* common prefix: n mrows mcols ab(0: m only | 1: a,b | 3: UE14/E12 style a | 4: wrong a dimensions) mnull (read, unused: the
 	     * measurement matrix is a required argument) */
